@@ -68,6 +68,28 @@ def run_cli(case):
                 import torrentfile.torrent as tt
                 cls = tt.TorrentFile if v == 1 else tt.TorrentAssembler
                 cls(**kw).write()
+            elif route == "interactive":
+                # the interactive front end: answers in the order the dialog asks for them
+                answers = iter([
+                    str(case["plen_arg"]) if opts["L"] else "",
+                    " ".join(ann) if opts["A"] else "",
+                    " ".join(VALS["W"]) if opts["W"] else "",
+                    " ".join(VALS["H"]) if opts["H"] else "",
+                    VALS["C"] if opts["C"] else "",
+                    VALS["S"] if opts["S"] else "",
+                    "y" if opts["P"] else "n",
+                    root,
+                    requested if opts["O"] else "",
+                    str(v) if opts["V"] else "",
+                ])
+                import builtins
+                real_input = builtins.input
+                builtins.input = lambda *a: next(answers)
+                try:
+                    from torrentfile.interactive import InteractiveCreator
+                    InteractiveCreator()
+                finally:
+                    builtins.input = real_input
             elif route == "config":
                 lines = ["[config]"]
                 if opts["A"]:
